@@ -28,12 +28,7 @@ def run(tier, seed):
              '(polynomial identities modulo sin^2 + cos^2 = 1)')
     A = symalg.Alg(prog)
     rz = prog.fn('bxdecay0::rotate_zyz')
-    p = {'x': Poly.sym('px'), 'y': Poly.sym('py'), 'z': Poly.sym('pz')}
     names = [q['name'] for q in rz['params'][1:4]]
-    r = A.call(rz, [p] + [Poly.sym(n) for n in ('phi', 'theta', 'psi')])
-    M = symalg.linear_map(r, ['px', 'py', 'pz'])
-    ok, why = symalg.is_rotation(M)
-    rep.add('ROTATION', 'orthonormal', where(rz), 'A^T A = 1 and det A = +1 for the matrix A of rotate_zyz', ok, why or None)
 
     def Rz(a):
         c, s = Poly.sym('c:' + a), Poly.sym('s:' + a)
@@ -45,10 +40,25 @@ def run(tier, seed):
 
     def mm(X, Y):
         return [[sum((X[i][k] * Y[k][j] for k in range(3)), Poly()) for j in range(3)] for i in range(3)]
-    want = mm(Rz('phi'), mm(Ry('theta'), Rz('psi')))
-    same = all(M[i][j] == want[i][j] for i in range(3) for j in range(3))
-    rep.add('ROTATION', 'composition', where(rz), 'A = Rz(phi) Ry(theta) Rz(psi): psi about z first, then theta about y, then phi about z, as documented '
-            'in the source', same, None if same else 'A = %r' % M)
+    want0 = mm(Rz('phi'), mm(Ry('theta'), Rz('psi')))
+    # every path through the function (a special-cased angle is a path of its own); a path taken under `angle == 0` may use
+    # cos = 1, sin = 0 for that angle, any other path must satisfy the identities as they stand
+    pths = A.paths(rz, lambda: [{'x': Poly.sym('px'), 'y': Poly.sym('py'), 'z': Poly.sym('pz')}] +
+                   [Poly.sym(n) for n in ('phi', 'theta', 'psi')])
+    for dec, r in pths:
+        tag = '' if len(pths) == 1 else ':' + ','.join('%s%s' % ('' if t else '!', l) for l, _, t, _ in dec)
+        facts = symalg.zero_angle_facts(dec, dict(zip(names, ('phi', 'theta', 'psi'))))
+        M = symalg.linear_map(r, ['px', 'py', 'pz'])
+        M = [[x.subst(facts) for x in row] for row in M]
+        ok, why = symalg.is_rotation(M)
+        rep.add('ROTATION', 'orthonormal' + tag, where(rz), 'A^T A = 1 and det A = +1 for the matrix A of rotate_zyz on %s'
+                % symalg.describe(dec), ok, why or None)
+        want = [[x.subst(facts) for x in row] for row in want0]
+        same = all(M[i][j] == want[i][j] for i in range(3) for j in range(3))
+        rep.add('ROTATION', 'composition' + tag, where(rz, dec[-1][0] if dec else None),
+                'A = Rz(phi) Ry(theta) Rz(psi): psi about z first, then theta about y, then phi about z, as documented '
+                'in the source, on %s' % symalg.describe(dec), same,
+                None if same else ['A = %r' % M, 'expected on this path: %r' % want])
     for nm, sz in (('transpose', None), ('multiply', None)):
         pass
     simpson.check(rep, prog)
